@@ -300,6 +300,9 @@ func one(h *harness.H, layer string, c int) {
 				exclMu.Lock()
 			}
 			err := w.db.VerifGarbageCollect(w.ctx)
+			if os.Getenv("VERIF_C09_TRACE") != "" {
+				traceCheck(w, fmt.Sprintf("gc-pass-%d", i))
+			}
 			if os.Getenv("VERIF_C09_EXCL") != "" {
 				exclMu.Unlock()
 			}
@@ -402,6 +405,13 @@ func one(h *harness.H, layer string, c int) {
 				for _, s := range want {
 					if !gotSet[string(s.Val)] && len(missing) < 6 {
 						missing = append(missing, s.TS)
+					}
+				}
+				if kind == "delete-group" {
+					if cskit.IsVar(w.specs[k].DT) {
+						kind += ":var"
+					} else {
+						kind += ":fixed"
 					}
 				}
 				h.Violation(layer, c, fmt.Sprintf("c09:%snot-serializable:%s:%s", nsOf(layer), kind, phase),
@@ -727,6 +737,24 @@ func deleter(w *world, r *prng.R) {
 		exclMu.Lock()
 	}
 	err := w.db.DeleteTimeRange(w.ctx, chans, telem.TimeRange{Start: telem.TimeStamp(a), End: telem.TimeStamp(b)})
+	if os.Getenv("VERIF_C09_TRACE") != "" && err == nil {
+		w.mu.Lock()
+		for _, k := range chans {
+			if _, ok := w.model.Chans[k]; ok {
+				w.model.Delete(k, a, b)
+			}
+		}
+		w.delLog = append(w.delLog, fmt.Sprintf("%v [%d,%d) err=%v", chans, a, b, err))
+		w.mu.Unlock()
+		traceCheck(w, fmt.Sprintf("delete %v [%d,%d)", chans, a, b))
+		if os.Getenv("VERIF_C09_SEQGC") != "" { // fully sequential: a GC pass after every delete
+			_ = w.db.VerifGarbageCollect(w.ctx)
+			w.mu.Lock()
+			w.delLog = append(w.delLog, "GC")
+			w.mu.Unlock()
+			traceCheck(w, "sequential gc after "+fmt.Sprintf("delete %v [%d,%d)", chans, a, b))
+		}
+	}
 	if os.Getenv("VERIF_C09_EXCL") != "" {
 		exclMu.Unlock()
 	}
@@ -868,4 +896,59 @@ func deadlockShape(d string) string {
 		out = out[:4]
 	}
 	return strings.Join(out, "+")
+}
+
+var traceDone atomic.Bool
+
+// traceCheck (exploration knob VERIF_C09_TRACE, requires VERIF_C09_EXCL): compare the
+// delete groups' content with the model right after an operation, while deletes and GC
+// passes are serialised, to find the operation after which content diverges.
+func traceCheck(w *world, after string) {
+	if traceDone.Load() {
+		return
+	}
+	for g := nWriterGroups; g < nWriterGroups+nDelGroups; g++ {
+		for _, d := range w.groups[g].Data {
+			k := d.Key
+			w.mu.Lock()
+			_, ok := w.model.Chans[k]
+			want := w.model.All(k)
+			w.mu.Unlock()
+			if !ok {
+				continue
+			}
+			fr, err := w.db.Read(w.ctx, telem.TimeRangeMax, k)
+			if err != nil {
+				continue
+			}
+			var got [][]byte
+			for _, s := range fr.Get(k).Series {
+				got = append(got, cskit.SplitSeries(s)...)
+			}
+			same := len(want) == len(got)
+			for i := 0; same && i < len(want); i++ {
+				same = string(want[i].Val) == string(got[i])
+			}
+			if !same && traceDone.CompareAndSwap(false, true) {
+				fmt.Printf("TRACE: channel %d diverged right after %q: got %d want %d\n", k, after, len(got), len(want))
+				if udb, ok := w.db.VerifUnary(k); ok {
+					it := udb.VerifDomain().OpenIterator(verifx.DomainIteratorConfig{Bounds: telem.TimeRangeMax})
+					for ok := it.SeekFirst(w.ctx); ok; ok = it.Next() {
+						fmt.Printf("TRACE:   domain %v size=%d\n", it.TimeRange(), it.Size())
+					}
+					_ = it.Close()
+				}
+				w.mu.Lock()
+				n := len(w.delLog)
+				lo := n - 12
+				if lo < 0 {
+					lo = 0
+				}
+				for _, l := range w.delLog[lo:] {
+					fmt.Printf("TRACE:   recent delete %s\n", l)
+				}
+				w.mu.Unlock()
+			}
+		}
+	}
 }
